@@ -845,7 +845,15 @@ class StateEngine(object):
         plan = self.sweep_plan(granularity, pairs)
         pi, k = self.sweep_points(granularity=granularity, pairs=pairs)[index]
         name, first, second, n_fine, n_total = plan[pi]
-        actors = [{"env": dict(DEFAULT_ENV), "ops": [first]}, {"env": dict(DEFAULT_ENV), "ops": [second]}]
+        # after the race, the two calls once more, one after the other in the thread that was pre-empted: a
+        # race that leaves shared state inconsistent while both racing calls return the right values
+        # (a memo written in two steps, torn by the other thread) shows only in what is computed NEXT
+        post = []
+        for op in (first, second):  # the pre-empted call finished last: a torn one-entry memo carries ITS key
+            o = dict(op)
+            o.pop("as", None)
+            post.append(o)
+        actors = [{"env": dict(DEFAULT_ENV), "ops": [first] + post}, {"env": dict(DEFAULT_ENV), "ops": [second]}]
         trace = {"engine": "state", "sweep_case": [name, granularity, k, n_fine, n_total], "hashseed": self.hashseed,
                  "actors": actors, "granularity": granularity, "schedule": [[0, 0], [k, 1]]}
         if ":after-warm-up:" in name:
